@@ -102,10 +102,9 @@ type step struct {
 	Node int    `json:"node,omitempty"`
 }
 
-func runCase(phase string, i int) worker.Result {
+func runCase(phase string, i int) (res worker.Result) {
 	seed := evidence.Seed()
 	rng := evidence.RandFor(seed, "c07-"+phase, i)
-	var res worker.Result
 	n := 6 + rng.IntN(24)
 	o := gen.DefaultOpts(rng, n)
 	o.DupMediaType = false
@@ -237,6 +236,11 @@ func runCase(phase string, i int) worker.Result {
 	}
 
 	cancelPushes := phase != "race" && rng.IntN(4) == 0
+	var cancelledPushes, cancelledStored atomic.Int64
+	defer func() {
+		res.Count("pushes_cancelled_at_last_byte", cancelledPushes.Load())
+		res.Count("cancelled_pushes_failed_but_stored", cancelledStored.Load())
+	}()
 	push := func(id int) error {
 		nd := g.Nodes[id]
 		if cancelPushes && len(nd.Bytes) > 0 && id%3 == 0 {
@@ -245,10 +249,10 @@ func runCase(phase string, i int) worker.Result {
 			cctx, cancel := context.WithCancel(ctx)
 			err := st.Push(cctx, nd.Desc, &cancelAtEnd{r: bytes.NewReader(nd.Bytes), left: len(nd.Bytes), cancel: cancel})
 			cancel()
-			res.Count("pushes_cancelled_at_last_byte", 1)
+			cancelledPushes.Add(1)
 			if err != nil && !errors.Is(err, errdef.ErrAlreadyExists) {
 				if ok, eerr := st.Exists(ctx, nd.Desc); eerr == nil && ok {
-					res.Count("cancelled_pushes_failed_but_stored", 1)
+					cancelledStored.Add(1)
 					return nil // stored: judged like any stored node
 				}
 				return errNotStored
